@@ -520,6 +520,88 @@ def observe_iov(spec):
             {'n_out': len(out), 'n': len(names)})
 
 
+_cov_probe = {}
+
+
+def covsearch_probe():
+    """the real covsearch.tool source loaded as a second module instance whose module-level names
+    lrt_best_of_many / is_strictness_fulfilled (the fit-dependent engine) are replaced by an oracle"""
+    import importlib.util
+    import sys
+    if 'm' in _cov_probe:
+        return _cov_probe['m']
+    real = impl('pharmpy.tools.covsearch.tool')
+    path = mutant_path('pharmpy.tools.covsearch.tool') or real.__file__
+    spec = importlib.util.spec_from_file_location('pharmpy.tools.covsearch.tool_c18probe', path)
+    mod = importlib.util.module_from_spec(spec)
+    mod.__package__ = 'pharmpy.tools.covsearch'
+    sys.modules['pharmpy.tools.covsearch.tool_c18probe'] = mod
+    spec.loader.exec_module(mod)
+    mod.is_strictness_fulfilled = lambda model, res, strictness: True
+
+    def best_of_many(parent, models, parent_ofv, ofvs, alpha):
+        if not models:
+            return parent
+        b = min(range(len(models)), key=lambda i: ofvs[i])
+        return models[b] if ofvs[b] < parent_ofv else parent
+    mod.lrt_best_of_many = best_of_many
+    _cov_probe['m'] = mod
+    return mod
+
+
+def observe_cov(spec):
+    import itertools
+    mod = covsearch_probe()
+    codes = MflCodes()
+
+    class Res:
+        def __init__(self, ofv):
+            self.ofv = ofv
+
+    class ME:
+        def __init__(self, name, ofv):
+            self.model = name
+            self.modelfit_results = Res(ofv)
+    effects = [tuple(e) for e in spec['effects']]
+    log = []
+    parent = mod.Candidate(ME('start', 1000.0), ())
+    allc = [parent] + [mod.Candidate(ME(f'x{i}', 2000.0), ()) for i in range(spec['n_all'] - 1)]
+    it = iter(spec['winners'])
+
+    def handle(step, par, cef, index_offset):
+        log.append((list(cef.keys()), index_offset))
+        w = next(it, None)
+        base = par.modelentry.modelfit_results.ofv
+        return [mod.Candidate(ME(f's{step}_{i}', base - 10 if (w is not None and i == w) else base + 5),
+                              par.steps + (mod.ForwardStep(0.05, mod.AddEffect(*e)),)) for i, e in enumerate(cef.keys())]
+    ms = spec['max_steps']
+    steps = range(1, ms + 1) if ms >= 0 else itertools.count(1)
+    mod.perform_step_procedure(steps, {e: (lambda m: m) for e in effects}, handle, allc, parent, None, 0.05, False)
+
+    def eff(e):
+        return '(' + ', '.join(f'{codes.code(x)}%N' for x in e) + ')'
+    wt = ct.lst(['None' if w is None else f'(Some {ct.nat(w)})' for w in spec['winners']])
+    ot = ct.lst([f'({ct.lst([eff(e) for e in c])}, {ct.nat(k)})' for c, k in log])
+    return (f"(CCov {ct.lst([eff(e) for e in effects])} {wt} {ct.nat(spec['n_all'])} ({ms})%Z {ot})",
+            {'n_out': sum(len(c) for c, _ in log), 'n': len(effects), 'steps': len(log)})
+
+
+def gen_cov_spec(rng):
+    pars, covs, fps = ['CL', 'VC', 'MAT'], ['WGT', 'AGE', 'SEX'], ['exp', 'lin', 'pow']
+    effects = []
+    for p in rng.sample(pars, rng.choice([1, 2, 3])):
+        for c in rng.sample(covs, rng.choice([1, 2, 3])):
+            for f in rng.sample(fps, rng.choice([1, 1, 2])):
+                effects.append([p, c, f, '*'])
+    rng.shuffle(effects)
+    winners, n = [], len(effects)
+    for _ in range(rng.choice([1, 2, 3, 4, 6])):
+        winners.append(rng.randrange(max(1, n)) if rng.random() < 0.85 else None)
+        n = max(1, n - 1)
+    return {'kind': 'cov', 'effects': effects, 'winners': winners, 'n_all': rng.choice([1, 1, 3]),
+            'max_steps': rng.choice([-1, -1, 1, 2, 5])}
+
+
 IIV_SHAPES = [
     {'periph': 0, 'remove': [], 'joint': [], 'fix': []},
     {'periph': 0, 'remove': [], 'joint': [['ETA_CL', 'ETA_VC']], 'fix': []},
@@ -575,6 +657,8 @@ def observe(spec):
         return observe_parse(spec)
     if kind == 'iov':
         return observe_iov(spec)
+    if kind == 'cov':
+        return observe_cov(spec)
     if kind == 'allowed':
         return observe_allowed(spec)
     raise ValueError('unknown spec kind ' + str(kind))
@@ -605,6 +689,8 @@ def gen_specs(rng, tier):
     for _ in range(60 if tier == 'quick' else 800):
         specs.append(gen_lnt_spec(rng))
     specs += gen_parse_specs(rng, 200 if tier == 'quick' else 2500)
+    for _ in range(40 if tier == 'quick' else 400):
+        specs.append(gen_cov_spec(rng))
     for n in range(0, 6 if tier == 'quick' else 9):
         names = [f'ETA_IOV_{k}_1' for k in range(1, n + 1)]
         rng.shuffle(names)
@@ -626,6 +712,7 @@ MFL_FINDINGS = {
     763: [(210, 'C18-MFL-WILDCARD')], 764: [(210, 'C18-MFL-WILDCARD')], 765: [(210, 'C18-MFL-WILDCARD')],
     766: [(210, 'C18-MFL-WILDCARD')],
     71: [(217, 'C18-LET-BYPASSES-VALIDATION')],
+    79: [(221, 'C18-ALLOMETRY-DEFAULT-REF')],
 }
 
 
@@ -865,7 +952,9 @@ def observe_parse(spec):
     gm = impl('pharmpy.tools.mfl.grammar')
     im = impl('pharmpy.tools.mfl.interpreter')
     from lark import Lark
+    from lark.exceptions import UnexpectedInput
     from pharmpy.tools.mfl.statement.definition import Let
+    from pharmpy.tools.mfl.statement.feature.allometry import Allometry
     from pharmpy.tools.mfl.statement.feature.covariate import Covariate, Ref
     from pharmpy.tools.mfl.statement.feature.symbols import Name, Wildcard
     if 'p' not in _lark_parser:
@@ -901,6 +990,12 @@ def observe_parse(spec):
 
     def stmt(stm):
         name = type(stm).__name__.upper()
+        if isinstance(stm, Allometry):
+            r = repr(float(stm.reference))
+            r = r[:-2] if r.endswith('.0') else r
+            if 'e' in r or 'n' in r:
+                raise Unexportable('float repr ' + r)
+            return f'(mkS {st(name)} false [AVals [IWord {st(stm.covariate)}]; AVals [IWord {st(r)}]])'
         if isinstance(stm, Let):
             return f'(mkS {st("LET")} false [AVals [IWord {st(stm.name)}]; {arg(stm.value)}])'
         if isinstance(stm, Covariate):
@@ -910,11 +1005,13 @@ def observe_parse(spec):
     try:
         tree = _lark_parser['p'].parse(text)
         stmts = im.MFLInterpreter().interpret(tree)
-        obs, outcome = '(Some [' + '; '.join(stmt(x) for x in stmts) + '])', 'accepted'
+        obs, outcome = '(Some [' + '; '.join(stmt(x) for x in stmts) + ']) false', 'accepted'
     except Unexportable:
         raise
-    except Exception as e:     # lark's UnexpectedToken / UnexpectedCharacters ...
-        obs, outcome = 'None', type(e).__name__
+    except UnexpectedInput as e:     # lark's UnexpectedToken / UnexpectedCharacters ...
+        obs, outcome = 'None false', type(e).__name__
+    except Exception as e:           # anything else comes out of the interpreter
+        obs, outcome = 'None true', 'internal ' + type(e).__name__
     return f'(CParse {st(text)} {obs})', {'n_out': 1, 'n': len(text), 'parse_outcome': outcome}
 
 
@@ -924,6 +1021,15 @@ def gen_parse_specs(rng, n):
     while len(texts) < n:
         s = gen_mfl_spec(rng, rng.choice(['pk', 'pk_wild', 'cov', 'pd', 'mixed']))
         texts += [s['a'], s['b']]
+    # lower / mixed case spellings (lark's keywords are case-insensitive, values are upper-cased by the interpreter)
+    texts += [''.join(ch.lower() if rng.random() < 0.4 else ch for ch in t) for t in texts[:n // 4]]
+    # ALLOMETRY(value[, decimal])
+    for _ in range(max(10, n // 10)):
+        cov = rng.choice(['WT', 'wt', 'W-T', '70', 'Wgt2'])
+        ref = rng.choice(['', ',70', ',70.0', ',1.50', ',007.250', ',0.5', ', 12', ',3.', '.5', ',1.2.3', ',70.5x', ',[70]'])
+        pre = rng.choice(['', 'ABSORPTION(FO);', 'LAGTIME(ON)\n'])
+        texts.append(pre + rng.choice(['ALLOMETRY', 'allometry', 'Allometry']) + '(' + cov + ref + ')')
+    n = len(texts)
     out = [{'kind': 'parse', 'text': t} for t in texts[:n]]
     for t in texts[:n // 2]:
         k = rng.choice(['del', 'ins', 'ins', 'swap', 'space', 'newline'])
